@@ -1133,7 +1133,12 @@ where
             // transaction now would run it on a paused pool. Hand the server back and wait for
             // RESUME like the clients that arrived after the PAUSE.
             while checkout.is_ok() && pool.paused() {
+                // Nobody uses the server and we are not running anything: say so.
+                if let Ok((ref conn, _)) = checkout {
+                    conn.stats().idle();
+                }
                 drop(checkout);
+                self.stats.idle();
                 pool.wait_paused().await;
                 checkout = pool
                     .get(query_router.shard(), query_router.role(), &self.stats)
